@@ -192,7 +192,7 @@ func verifRefEscape(k string) string {
 func verifMaxKinds(variant int) map[string]int {
 	m := map[string]int{
 		"additionalProperties": 1, "propertyNames": 1, "contains": 1, "not": 1, "if": 1, "then": 1, "else": 1,
-		"allOf": 2, "anyOf": 2, "oneOf": 2,
+		"allOf": 2, "anyOf": 4, "oneOf": 2, // anyOf is the long array (verifLongLen members)
 		"properties": 3, "patternProperties": 3,
 	}
 	if variant == 0 { // draft 2020-12 shape
@@ -225,7 +225,10 @@ func verifMaximalSchema(variant int) *Schema {
 	s := &Schema{Title: "root", Type: "object", Required: []string{"a"}, Enum: []any{1}}
 	s.AdditionalProperties, s.PropertyNames, s.Contains, s.Not = single("additionalProperties"), single("propertyNames"), single("contains"), single("not")
 	s.If, s.Then, s.Else = single("if"), single("then"), single("else")
-	s.AllOf, s.AnyOf, s.OneOf = arr("allOf"), arr("anyOf"), arr("oneOf")
+	s.AllOf, s.OneOf = arr("allOf"), arr("oneOf")
+	for i := 0; i < verifLongLen; i++ {
+		s.AnyOf = append(s.AnyOf, mk("/anyOf/"+verifItoa(i)))
+	}
 	s.Properties, s.PatternProperties = mp("properties"), mp("patternProperties")
 	if variant == 0 {
 		s.UnevaluatedProperties, s.UnevaluatedItems, s.ContentSchema, s.Items = single("unevaluatedProperties"), single("unevaluatedItems"), single("contentSchema"), single("items")
@@ -272,8 +275,34 @@ func verifRefDeref(variant int, seg1 string, hasSeg2 bool, seg2 string) string {
 				return "/" + k + "/" + verifRefEscape(key)
 			}
 		}
+	case 4:
+		// array index (RFC 6901 section 4): "0", or a digit 1-9 followed by digits; within bounds
+		if len(t) == 0 || len(t) > 4 || (len(t) > 1 && t[0] == '0') {
+			return ""
+		}
+		n := 0
+		for i := 0; i < len(t); i++ {
+			if t[i] < '0' || t[i] > '9' {
+				return ""
+			}
+			n = n*10 + int(t[i]-'0')
+		}
+		for i := 0; i < verifLongLen; i++ {
+			if n == i {
+				return "/" + k + "/" + verifItoa(i)
+			}
+		}
 	}
 	return ""
+}
+
+const verifLongLen = 12
+
+func verifItoa(i int) string {
+	if i >= 10 {
+		return string(rune('0'+i/10)) + string(rune('0'+i%10))
+	}
+	return string(rune('0' + i))
 }
 
 // VerifKernelDeref: dereferenceJSONPointer designates exactly what RFC 6901 designates.
@@ -328,7 +357,9 @@ func VerifKernelPropertyOrder(pa, pb, pc, pd bool, order string) bool {
 	if pd {
 		props["d"] = &Schema{}
 	}
-	var ord []string
+	// the list has spare capacity (as a list built by append has): Marshal must leave the
+	// list and the memory behind it alone
+	ord := make([]string, 0, len(order)+2)
 	for i := 0; i < len(order); i++ {
 		ord = append(ord, string(order[i]))
 	}
@@ -351,6 +382,16 @@ func VerifKernelPropertyOrder(pa, pb, pc, pd bool, order string) bool {
 	bs, err := orderedProperties{props: props, order: ord}.MarshalJSON()
 	if err != nil {
 		return false
+	}
+	for i := range ord {
+		if ord[i] != string(order[i]) {
+			return false
+		}
+	}
+	for _, x := range ord[len(ord):cap(ord)] {
+		if x != "" {
+			return false
+		}
 	}
 	// expected key sequence
 	present := func(c byte) bool {
@@ -469,4 +510,94 @@ func VerifResolveSummary(s *Schema) string {
 		out += l + "\n"
 	}
 	return out
+}
+
+// ---- C13/C16: For with a caller-supplied TypeSchemas entry that stays shared
+
+type verifOver struct{ X int }
+
+type verifHolder struct {
+	P *verifOver  `json:"p"`
+	Q *verifOver  `json:"q"`
+	R []verifOver `json:"r,omitempty"`
+	S verifOver   `json:"s"`
+}
+
+func verifSameStrings(a, b []string) bool {
+	if len(a) != len(b) {
+		return false
+	}
+	for i := range a {
+		if a[i] != b[i] {
+			return false
+		}
+	}
+	return true
+}
+
+// VerifKernelForShared infers the schema of verifHolder twice with the same options, whose
+// TypeSchemas entry for verifOver is the caller's schema o. For must not write to o (the
+// engine reports stores into it) and both calls, and both pointer fields within one call,
+// must see the same override.
+func VerifKernelForShared(o *Schema) bool {
+	t := reflect.TypeFor[verifHolder]()
+	opts := &ForOptions{TypeSchemas: map[reflect.Type]*Schema{reflect.TypeFor[verifOver](): o}}
+	s1, err := ForType(t, opts)
+	if err != nil {
+		return false
+	}
+	s2, err := ForType(t, opts)
+	if err != nil {
+		return false
+	}
+	for _, s := range []*Schema{s1, s2} {
+		p, q, v := s.Properties["p"], s.Properties["q"], s.Properties["s"]
+		if p == nil || q == nil || v == nil || p == o || q == o || v == o || p == q {
+			return false
+		}
+		if p.Type != q.Type || !verifSameStrings(p.Types, q.Types) {
+			return false
+		}
+		if v.Type != o.Type || !verifSameStrings(v.Types, o.Types) {
+			return false
+		}
+	}
+	return verifSameStrings(s1.Properties["p"].Types, s2.Properties["p"].Types) && s1.Properties["p"].Type == s2.Properties["p"].Type
+}
+
+// ---- C13: process-wide caches
+
+// VerifKernelJSONNamesCache fills the field-name cache used by Marshal/Unmarshal from cold and
+// reads it again. The engine reports any write into the cached map after it was published
+// through the sync.Map (a concurrent reader would race with it and could see a partial set).
+func VerifKernelJSONNamesCache() bool {
+	t := reflect.TypeFor[Schema]()
+	m1 := jsonNames(t)
+	m2 := jsonNames(t)
+	if len(m1) == 0 || len(m1) != len(m2) {
+		return false
+	}
+	return m1["title"] && m1["$ref"] && m1["properties"] && !m1["Title"] && !m1["no-such-keyword"]
+}
+
+// ---- C19/C14: a failed Marshal leaves nothing behind
+
+// VerifFailTitle marks a property schema whose marshaling fails (natively: an unmarshalable
+// Extra value; in the engine json.Marshal of such a *Schema is stubbed to return an error).
+const VerifFailTitle = "verif-fail"
+
+func verifFailingSchema() *Schema {
+	return &Schema{Title: VerifFailTitle, Extra: map[string]any{"x": func() {}}}
+}
+
+// VerifKernelPropertyOrderAfterFailure first marshals properties {a: <fails>, b, c, d: {}} with
+// order [b, c, a] (b and c are written, then a fails), checks that the call fails, and then
+// demands everything VerifKernelPropertyOrder demands: the earlier failed call must have no
+// influence on a later one.
+func VerifKernelPropertyOrderAfterFailure(pa, pb, pc, pd bool, order string) bool {
+	props := map[string]*Schema{"a": verifFailingSchema(), "b": {}, "c": {}, "d": {}}
+	if _, err := (orderedProperties{props: props, order: []string{"b", "c", "a"}}).MarshalJSON(); err == nil {
+		return false
+	}
+	return VerifKernelPropertyOrder(pa, pb, pc, pd, order)
 }
